@@ -1,4 +1,4 @@
-import MsqProofs.Lemmas.LexRetain2Defs
+import MsqProofs.Lemmas.LexRetain2Walk
 import MsqModel.Gen.LexCfg5
 /-! C04 (d) table obligation for option setting 5 (4·IGNORE_SPACE + 2·IGNORE_LINEBREAK + IGNORE_COMMENT): on every cell of
 the regenerated table that does not raise, what the operation(s) do to the pending window — extend it, emit it as a
@@ -7,6 +7,6 @@ token, drop it, open / close a group — is what the character classification of
 the ignored classes are dropped, every other character ends up in a token or is a bracket that opens / closes a group.
 Re-checked by the kernel on every run. -/
 namespace Oblig
-theorem retSim_cfg5 : Lex.retCheck (Scan.Ign.ofBits 5) Gen.Cfg5.cfg = true := by
-  rw [← Lex.retCheckF_eq]; decide +kernel
+theorem retSim_cfg5 : Lex.retCheck (Scan.Ign.ofBits 5) Gen.Cfg5.cfg = true :=
+  Lex.retCheckW_sound _ _ (by decide +kernel)
 end Oblig
